@@ -17,12 +17,20 @@ def isNaNBits (v : UInt64) : Bool :=
 
 def isZeroBits (v : UInt64) : Bool := v.toNat % 2 ^ 63 == 0
 
-/-- Go's `==` on map keys (primitive roots only): doubles compare numerically. -/
+/-- Go's `==` on map keys (primitive roots only): doubles compare numerically
+(NaN ≠ NaN, +0 = −0); everything else bit-for-bit. Written out by constructor so that it
+evaluates in the kernel and has the obvious lemmas. -/
 def keyEq : GVal → GVal → Bool
+  | .bool a, .bool b => a == b
+  | .i8 a, .i8 b => a == b
+  | .i16 a, .i16 b => a == b
+  | .i32 a, .i32 b => a == b
+  | .i64 a, .i64 b => a == b
   | .double a, .double b =>
     if isNaNBits a || isNaNBits b then false
     else if isZeroBits a && isZeroBits b then true else a == b
-  | a, b => a == b
+  | .str a, .str b => a == b
+  | _, _ => false
 
 /-- `o[x] = struct{}{}`. -/
 def setInsert (xs : List GVal) (x : GVal) : List GVal :=
